@@ -105,6 +105,7 @@ def build(scroot, scn):
     if scn["cmd"] == "gc":
         os.makedirs(os.path.join(pr.root, "cond-out", "a", "ghost.task.5", "d"), exist_ok=True)
         os.makedirs(os.path.join(pr.root, "cond-out", "ok1.task.77"), exist_ok=True)
+        os.symlink("a", os.path.join(pr.root, "cond-out", "latest"))  # a user-made shortcut into cond-out
     return pr, extra
 
 
